@@ -61,11 +61,16 @@ func PathsWithModules(root string) (paths []string, err error) {
 func (ms *Modules) AddPath(paths ...string) {
 	for _, path := range paths {
 		for _, p := range strings.Split(path, ":") {
-			if !ms.pathMap[p] {
-				ms.pathMap[p] = true
-				ms.Path = append(ms.Path, p)
-			}
+			ms.addDir(p)
 		}
+	}
+}
+
+// addDir adds the single directory p to Path, if it is not already in Path.
+func (ms *Modules) addDir(p string) {
+	if !ms.pathMap[p] {
+		ms.pathMap[p] = true
+		ms.Path = append(ms.Path, p)
 	}
 }
 
@@ -100,7 +105,8 @@ func (ms *Modules) findFile(name string) (string, string, error) {
 
 	switch data, err := readFile(name); true {
 	case err == nil:
-		ms.AddPath(filepath.Dir(name))
+		// One directory, whatever characters its name has.
+		ms.addDir(filepath.Dir(name))
 		return name, string(data), nil
 	case slash >= 0:
 		// If there are any /'s in the name then don't search Path.
